@@ -20,7 +20,7 @@ PROTOS_X = list(proto.PROTOS) * 3 + ["LOGIN", "DroneCheck", "nonsense"]
 
 def gen_config(rng):
     svcs = [(n, rng.choice(PROTOS_X)) for n in rng.sample(SVC_NAMES, rng.choice([0, 1, 2, 3]))]
-    rules = c11.gen_rules(rng) if rng.random() < 0.8 else []
+    rules = c11.gen_rules(rng, bad=False) if rng.random() < 0.8 else []
     for r in rules:
         if "xreply_ok" in r:
             r["xreply_ok"] = rng.choice(["login.svc", "drone.svc", "combo.svc"])
@@ -57,7 +57,7 @@ def edit(rng, svcs, rules):
             i = rng.randrange(len(svcs))
             svcs[i] = (svcs[i][0], rng.choice([p for p in PROTOS_X if p != svcs[i][1]]))
         elif k == "rule-add":
-            new = c11.gen_rules(rng)
+            new = c11.gen_rules(rng, bad=False)
             new = [r for r in new if r["name"].lower() not in [x["name"].lower() for x in rules]]
             if not new:
                 continue
@@ -143,7 +143,7 @@ def directed_chain(rng, kind, svcs, rules):
     pa, pb, pc = (rng.choice(proto.PROTOS) for _ in range(3))
     rules = [r for r in rules if "_plain" not in r]
     if not rules:
-        rules = [r for r in c11.gen_rules(rng) if "_plain" not in r]
+        rules = [r for r in c11.gen_rules(rng, bad=False) if "_plain" not in r]
     r0 = copy.deepcopy(rules)
     if kind == "svc-remove-then-add":
         steps = [[(a, pa), (b, pb)], [(b, pb)], [(b, pb), (c, pc)]]
@@ -276,7 +276,7 @@ def directed_chain(rng, kind, svcs, rules):
         return [(sv, base, []), (sv, r1, [kind]), (sv, r2, [kind])]
     if kind == "rule-add-then-change":
         # reload 1 adds a rule, reload 2 changes its class / a criterion in place
-        new = [r for r in c11.gen_rules(rng) if r["name"].lower() not in [x["name"].lower() for x in r0]]
+        new = [r for r in c11.gen_rules(rng, bad=False) if r["name"].lower() not in [x["name"].lower() for x in r0]]
         if not new:
             new = [{"name": "zzz9", "class": "late"}]
         r1 = copy.deepcopy(r0) + [dict(new[0], **{"class": "added"})]
@@ -490,7 +490,7 @@ def _queued_worker(a):
     res = {"viol": [], "stats": {"queued_runs": 1, "queued_verdicts_before_marker": 0, "queued_verdicts_after_marker": 0, "queued_verdicts_that_tell_old_from_new": 0}, "inconc": [],
            "hash": vcommon.h(["q", seed]), "nontrivial": False}
     for _ in range(20):
-        old = [r for r in c11.gen_rules(rng)]
+        old = [r for r in c11.gen_rules(rng, bad=False)]
         for r in old:
             r.pop("xreply_ok", None)
             r.pop("account", None)
